@@ -13,6 +13,7 @@ import Compress.Drv.Flate
 import Compress.Drv.Window
 import Compress.Drv.BitIO
 import Compress.Drv.Bzip2
+import Compress.Drv.WriterApi
 
 open Compress.Util Compress.Drv
 
@@ -57,6 +58,7 @@ def processLine (brotliDict : ByteArray) (line : String) : String :=
       | "menc" => handleMenc kv
       | "mdec" => handleMdec kv
       | "mrs" => handleMrs kv
+      | "lwm" => handleLwm kv
       | _ => "bad-kind"
     s!"{id} {out}"
 
